@@ -92,6 +92,7 @@ type ProxyTopo struct {
 	Extra        map[string]*Pipe         // further dialable raw peers by name (proxy side = A)
 	SlowDial     map[string]chan struct{} // dialling these names blocks until the channel is closed
 	moreServers  map[string]*Pipe
+	gens         []*Pipe
 }
 
 type ProxyOpts struct {
@@ -178,4 +179,24 @@ func NewProxyTopo(impl SvcServer, o ProxyOpts) *ProxyTopo {
 	}
 	vsched.GoNamed("proxy", func() { t.Proxy.Serve(); t.ProxyDone = true })
 	return t
+}
+
+// ReattachServer: the server comes back on a new link under its old name while the proxy's end
+// of the old link has not failed (half-open): a new Demux and Serve on the new link, attached
+// with AddClient. The old link's server side stops reading (its Demux is stopped).
+func (t *ProxyTopo) ReattachServer(capn int) *Pipe {
+	if t.Demux != nil {
+		t.Demux.Stop()
+	}
+	np := NewPipe(t.Tap, PipeOpts{Name: fmt.Sprintf("srv-gen%d", len(t.gens)+2), Cap: capn})
+	t.gens = append(t.gens, np)
+	dm := goat.NewDemux(t.Ctx, np.B, func(r *Rpc) string { return r.GetHeader().GetSource() }, func(rw goat.RpcReadWriter) {
+		t.Serves++
+		t.Srv.Serve(t.Ctx, rw)
+		t.ServesDone++
+	})
+	t.Demux = dm
+	vsched.GoNamed("demux-"+np.Opts.Name, func() { dm.Run() })
+	t.Proxy.AddClient("srv", np.A)
+	return np
 }
